@@ -59,6 +59,11 @@ bool DyndepLoader::LoadDyndeps(Node* node, DyndepFile* ddf,
       return false;
     }
 
+    // A statement may name its dyndep file more than once among its inputs
+    // and is then listed more than once; its information applies once.
+    if (ddi->second.used_)
+      continue;
+
     ddi->second.used_ = true;
     Dyndeps const& dyndeps = ddi->second;
     if (!UpdateEdge(edge, &dyndeps, err)) {
